@@ -1,1 +1,261 @@
-From V Require Import C18_Spec C18_Proofs.
+(* C18_Props.v — the property theorems of C18 and nothing else.
+   Each is closed by `exact <lemma>` and followed by Print Assumptions.
+   The third-party libraries are universally quantified and constrained by the contracts of
+   C18_Spec.v (detail_contract, b64_contract, bin_contract, json_contract); the last theorem
+   shows the contracts are satisfied by the instances the extracted model runs with. *)
+From V Require Import C18_Spec C18_Proofs C18_Instances.
+Open Scope N_scope.
+
+(* ---------------------------------------------------------------- errors *)
+(* the model's scan for the last '/' computes the declarative type name; the default prefix the
+   repository puts back in front of it restores a canonical type URL exactly *)
+Theorem type_url_restoration : forall url,
+  type_name url = type_of url /\ ~ In slash (type_of url) /\
+  type_of (default_prefix ++ type_of url) = type_of url /\
+  (canonical_url url -> default_prefix ++ type_of url = url).
+Proof. exact type_url_restoration_proof. Qed.
+Print Assumptions type_url_restoration.
+
+(* test-case form -> Connect form: the Connect error shows the code, the message text and, for
+   every detail in order, its type and its bytes *)
+Theorem err_connect_view : forall new_detail d_type d_bytes,
+  detail_contract new_detail d_type d_bytes -> forall e,
+  cerr_view d_type d_bytes (connect_of_proto new_detail e) =
+  (to_u32 (p_code e), message_of e, map (fun a => (type_of (fst a), snd a)) (p_details e)).
+Proof. exact connect_view_proof. Qed.
+Print Assumptions err_connect_view.
+
+(* test-case form -> Connect form -> test-case form: same code, message and details (type, bytes,
+   order); with canonical type URLs the very same error, the message now set *)
+Theorem err_roundtrip_connect : forall new_detail d_type d_bytes,
+  detail_contract new_detail d_type d_bytes -> forall e,
+  int32 (p_code e) ->
+  same_error (proto_of_connect d_type d_bytes (connect_of_proto new_detail e)) e /\
+  (canonical_details (p_details e) ->
+   proto_of_connect d_type d_bytes (connect_of_proto new_detail e) =
+   PErr (p_code e) (Some (message_of e)) (p_details e)).
+Proof. exact err_roundtrip_connect_proof. Qed.
+Print Assumptions err_roundtrip_connect.
+
+(* Connect form -> test-case form -> Connect form: indistinguishable for an observer *)
+Theorem err_roundtrip_proto : forall new_detail d_type d_bytes,
+  detail_contract new_detail d_type d_bytes -> forall c,
+  uint32 (c_code c) -> Forall (fun d => ~ In slash (d_type d)) (c_details c) ->
+  cerr_view d_type d_bytes (connect_of_proto new_detail (proto_of_connect d_type d_bytes c)) =
+  cerr_view d_type d_bytes c.
+Proof. exact err_roundtrip_proto_proof. Qed.
+Print Assumptions err_roundtrip_proto.
+
+(* ConvertErrorToConnectError / ConvertErrorToProtoError: a Connect error, bare or wrapped, is
+   found and converted as above; anything else is code unknown with the error text *)
+Theorem err_from_go : forall new_detail d_type d_bytes,
+  detail_contract new_detail d_type d_bytes ->
+  (forall c, connect_of_error (GoConnect c) = c) /\
+  (forall t c, connect_of_error (GoWrapped t c) = c) /\
+  (forall t, cerr_view d_type d_bytes (connect_of_error (GoPlain t)) = (2%Z, t, [])) /\
+  (forall g, proto_of_error d_type d_bytes g = proto_of_connect d_type d_bytes (connect_of_error g)) /\
+  (forall e t, int32 (p_code e) ->
+     same_error (proto_of_error d_type d_bytes (GoConnect (connect_of_proto new_detail e))) e /\
+     same_error (proto_of_error d_type d_bytes (GoWrapped t (connect_of_proto new_detail e))) e).
+Proof. exact err_from_go_proof. Qed.
+Print Assumptions err_from_go.
+
+(* test-case form -> gRPC status -> test-case form: OK (0) is no error; every other code gives a
+   status with the same code, message and details, and converts back to the same error *)
+Theorem err_roundtrip_grpc : forall e,
+  int32 (p_code e) ->
+  (grpc_of_proto e = None <-> p_code e = 0%Z) /\
+  (p_code e <> 0%Z ->
+   exists s, grpc_of_proto e = Some s /\
+             (g_code s, g_msg s, g_details s) = (p_code e, message_of e, p_details e) /\
+             proto_of_grpc (GrpcStatus s) = PErr (p_code e) (Some (message_of e)) (p_details e) /\
+             same_error (proto_of_grpc (GrpcStatus s)) e /\
+             (forall t, p_code (proto_of_grpc (GrpcWrapped t s)) = p_code e /\
+                        p_details (proto_of_grpc (GrpcWrapped t s)) = p_details e)).
+Proof. exact err_roundtrip_grpc_proof. Qed.
+Print Assumptions err_roundtrip_grpc.
+
+(* gRPC status -> test-case form -> gRPC status *)
+Theorem err_roundtrip_status : forall s,
+  int32 (g_code s) -> g_code s <> 0%Z -> grpc_of_proto (proto_of_grpc (GrpcStatus s)) = Some s.
+Proof. exact err_roundtrip_status_proof. Qed.
+Print Assumptions err_roundtrip_status.
+
+(* -------------------------------------------------------------- metadata *)
+(* header list -> metadata -> header list.  One entry per name up to letter case; under key k the
+   values of every header whose name is k up to case, in order; a `-bin` value is decoded into the
+   metadata and reads back as the base64 text of its content - encoded once; a header list
+   produced from binary data reads back unchanged.  No base64 assumption for the first four parts. *)
+Theorem md_roundtrip : forall b64enc b64dec hs,
+  NoDup (map fst (proto_of_md b64enc (md_of_proto b64dec hs))) /\
+  (forall k, In k (map fst (proto_of_md b64enc (md_of_proto b64dec hs))) <->
+             exists h, In h hs /\ lower (fst h) = k) /\
+  (forall k, md_get (md_of_proto b64dec hs) k =
+             if occurs k hs
+             then Some (if is_bin k then map (decode_or_raw b64dec) (values_for k hs) else values_for k hs)
+             else None) /\
+  (forall k, md_get (proto_of_md b64enc (md_of_proto b64dec hs)) k =
+             if occurs k hs then Some (once b64enc b64dec k (values_for k hs)) else None) /\
+  (b64_contract b64enc b64dec -> canonical_bin b64enc hs ->
+   forall k, md_get (proto_of_md b64enc (md_of_proto b64dec hs)) k =
+             if occurs k hs then Some (values_for k hs) else None).
+Proof. exact md_roundtrip_proof. Qed.
+Print Assumptions md_roundtrip.
+
+(* metadata (unique lower-case keys, as grpc-go keeps it) -> header list -> metadata *)
+Theorem md_roundtrip_back : forall b64enc b64dec (m : md),
+  b64_contract b64enc b64dec ->
+  NoDup (map fst m) -> Forall (fun kv => lower (fst kv) = fst kv) m ->
+  Forall (fun kv => Forall (Forall is_byte) (snd kv)) m ->
+  forall k, md_get (md_of_proto b64dec (proto_of_md b64enc m)) k = md_get m k.
+Proof. exact md_roundtrip_back_proof. Qed.
+Print Assumptions md_roundtrip_back.
+
+(* the client path: AppendToOutgoingContext, grpc-go's outgoing metadata, and what the peer's
+   ConvertMetadataToProtoHeader reports.  grpc-go receives what ConvertProtoHeaderToMetadata
+   builds (a name without values carries nothing), `-bin` values are reported encoded once *)
+Theorem outgoing_once : forall b64enc b64dec hs,
+  NoDup (map fst (outgoing_reported b64enc b64dec hs)) /\
+  (forall k, md_get (grpc_outgoing_md (outgoing_pairs b64dec hs)) k =
+             some_nonempty (get_or_nil (md_get (md_of_proto b64dec hs) k))) /\
+  (forall k, md_get (outgoing_reported b64enc b64dec hs) k =
+             some_nonempty (once b64enc b64dec k (values_for k hs))) /\
+  (b64_contract b64enc b64dec -> canonical_bin b64enc hs ->
+   forall k, md_get (outgoing_reported b64enc b64dec hs) k = some_nonempty (values_for k hs)).
+Proof. exact outgoing_once_proof. Qed.
+Print Assumptions outgoing_once.
+
+(* internal/headers.go: AddHeaders / AddTrailers into an http.Header and ConvertToProtoHeader back:
+   one entry per canonical name, all values in order, the name changed in letter case only *)
+Theorem http_headers : forall prefix hs,
+  let out := convert_to_proto_header (add_headers prefix hs []) in
+  NoDup (map fst out) /\
+  (forall k, md_get out k = some_nonempty (values_under (fun n => canonical_key (prefix ++ n)) k hs)) /\
+  (forall n, lower (canonical_key (prefix ++ n)) = lower prefix ++ lower n).
+Proof. exact http_headers_proof. Qed.
+Print Assumptions http_headers.
+
+(* ------------------------------------------------------ percent-encoding *)
+(* for ALL byte strings: decodable to the original, printable ASCII only, identity on safe text *)
+Theorem percent_inverse : forall m,
+  Forall is_byte m ->
+  percent_decode (percent_encode m) = Some m /\
+  Forall printable_ascii (percent_encode m) /\
+  (Forall safe_char m -> percent_encode m = m).
+Proof. exact percent_inverse_proof. Qed.
+Print Assumptions percent_inverse.
+
+Theorem percent_injective : forall m1 m2,
+  Forall is_byte m1 -> Forall is_byte m2 -> percent_encode m1 = percent_encode m2 -> m1 = m2.
+Proof. exact percent_injective_proof. Qed.
+Print Assumptions percent_injective.
+
+(* ShouldEscapeByteInMessage is the complement of "printable and not '%'" *)
+Theorem escape_class : forall c, should_escape c = false <-> safe_char c.
+Proof. exact should_escape_spec. Qed.
+Print Assumptions escape_class.
+
+(* ---------------------------------------------------------- strict codecs *)
+Theorem codec_roundtrip : forall wire marshal_bin unmarshal_bin marshal_json unmarshal_json json_unknown,
+  @bin_contract wire marshal_bin unmarshal_bin ->
+  json_contract marshal_json unmarshal_json json_unknown ->
+  forall m, ~ has_unknown m ->
+  strict_proto_unmarshal wire unmarshal_bin (strict_proto_marshal wire marshal_bin m) = COk m /\
+  strict_json_unmarshal wire unmarshal_json (strict_json_marshal wire marshal_json m) = COk m.
+Proof. exact codec_roundtrip_proof. Qed.
+Print Assumptions codec_roundtrip.
+
+(* unknown fields are rejected at any depth and never dropped: whatever the binary codec accepts is
+   the library's parse of the data and has no unrecognised field anywhere *)
+Theorem codec_rejects_unknown : forall wire marshal_bin unmarshal_bin marshal_json unmarshal_json json_unknown,
+  @bin_contract wire marshal_bin unmarshal_bin ->
+  json_contract marshal_json unmarshal_json json_unknown ->
+  (forall w m, unmarshal_bin w = Some m -> has_unknown m ->
+               strict_proto_unmarshal wire unmarshal_bin w = CErrUnknown) /\
+  (forall w m, strict_proto_unmarshal wire unmarshal_bin w = COk m ->
+               unmarshal_bin w = Some m /\ ~ has_unknown m) /\
+  (forall m, has_unknown m -> strict_proto_unmarshal wire unmarshal_bin (marshal_bin m) = CErrUnknown) /\
+  (forall w, json_unknown w -> strict_json_unmarshal wire unmarshal_json w = CErrMalformed) /\
+  (forall w m, strict_json_unmarshal wire unmarshal_json w = COk m ->
+               unmarshal_json false w = Some m /\ ~ has_unknown m).
+Proof. exact codec_rejects_unknown_proof. Qed.
+Print Assumptions codec_rejects_unknown.
+
+(* ------------------------------------------- the contracts are satisfiable *)
+(* ... by the instances the extracted model runs with; the base64 one is the Gallina transcription
+   of Go's encoding/base64 as connect uses it, compared with the Go functions on every check *)
+Theorem contracts_inhabited :
+  detail_contract new_detail_i d_type_i d_bytes_i /\ (forall d, ~ In slash (d_type_i d)) /\
+  b64_contract b64enc_i b64dec_i /\
+  bin_contract marshal_bin_i unmarshal_bin_i /\
+  json_contract marshal_json_i unmarshal_json_i json_unknown_i.
+Proof. exact contracts_inhabited_proof. Qed.
+Print Assumptions contracts_inhabited.
+
+(* ---- non-vacuity and the behaviour of the pinned code, for the record ---- *)
+Example ex_type_of :
+  type_of (bs "type.googleapis.com/google.rpc.ErrorInfo") = bs "google.rpc.ErrorInfo" /\
+  type_of (bs "example.com/a/b/x.Y") = bs "x.Y" /\ type_of (bs "x.Y") = bs "x.Y" /\ type_of (bs "a/") = [].
+Proof. vm_compute. auto. Qed.
+
+Example ex_canonical_url : canonical_url (bs "type.googleapis.com/google.rpc.ErrorInfo").
+Proof.
+  exists (bs "google.rpc.ErrorInfo"). split; [reflexivity|]. vm_compute. intuition discriminate.
+Qed.
+
+(* a non-canonical URL keeps its type but gets the default prefix *)
+Example ex_prefix_rewritten :
+  p_details (p_of_c (c_of_p (PErr 5 None [(bs "example.com/x.Y", [1; 2])]))) =
+  [(bs "type.googleapis.com/x.Y", [1; 2])].
+Proof. vm_compute. reflexivity. Qed.
+
+(* #10: the pinned ConvertProtoHeaderToMetadata assigned; repeated names lost values *)
+Example ex_md_assign_refuted :
+  md_of_proto_assign b64dec_i [(bs "X-A", [bs "1"]); (bs "x-a", [bs "2"])] = [(bs "x-a", [bs "2"])] /\
+  md_of_proto b64dec_i [(bs "X-A", [bs "1"]); (bs "x-a", [bs "2"])] = [(bs "x-a", [bs "1"; bs "2"])].
+Proof. vm_compute. auto. Qed.
+
+(* #13: the pinned AppendToOutgoingContext passed the base64 text on; grpc-go encoded it again *)
+Example ex_outgoing_raw_refuted :
+  outgoing_reported_raw b64enc_i [(bs "Key-Bin", [bs "AQID"])] = [(bs "key-bin", [bs "QVFJRA"])] /\
+  outgoing_reported b64enc_i b64dec_i [(bs "Key-Bin", [bs "AQID"])] = [(bs "key-bin", [bs "AQID"])].
+Proof. vm_compute. auto. Qed.
+
+(* a padded value is not canonical: its content survives, its text is re-encoded (once) *)
+Example ex_padded_value :
+  proto_of_md_i (md_of_proto_i [(bs "k-bin", [bs "AQ=="; bs "not base64"])]) =
+  [(bs "k-bin", [bs "AQ"; bs "bm90IGJhc2U2NA"])].
+Proof. vm_compute. reflexivity. Qed.
+
+Example ex_canonical_bin : canonical_bin b64enc_i [(bs "X-Bin", [bs "AQID"]); (bs "x", [bs "!"])].
+Proof.
+  intros h v [<-|[<-|[]]] B Hv; [|discriminate B].
+  destruct Hv as [<-|[]]. exists [1; 2; 3]. split; [|reflexivity].
+  repeat constructor.
+Qed.
+
+Example ex_percent :
+  percent_encode (bs "a%b" ++ [10; 195; 164]) = bs "a%25b%0A%C3%A4" /\
+  percent_decode (bs "a%25b%0A%C3%A4") = Some (bs "a%b" ++ [10; 195; 164]) /\
+  percent_encode (bs "safe text~") = bs "safe text~" /\ percent_decode (bs "%zz") = None.
+Proof. vm_compute. auto. Qed.
+
+(* #11: the pinned StrictProtoCodec marshalled JSON, which its own Unmarshal refuses *)
+Example ex_proto_marshal_pinned :
+  strict_proto_unmarshal _ unmarshal_bin_i (strict_proto_marshal_pinned _ marshal_json_i (PMsg (bs "n") [] [])) = CErrMalformed /\
+  strict_proto_unmarshal _ unmarshal_bin_i (strict_proto_marshal _ marshal_bin_i (PMsg (bs "n") [] [])) = COk (PMsg (bs "n") [] []).
+Proof. vm_compute. auto. Qed.
+
+(* #12: the pinned StrictProtoCodec looked at the top level only *)
+Example ex_nested_unknown_pinned :
+  let m := PMsg (bs "t") [] [PMsg (bs "GET") [192; 62; 1] []] in
+  has_unknown m /\
+  strict_proto_unmarshal_pinned _ unmarshal_bin_i (marshal_bin_i m) = COk m /\
+  strict_proto_unmarshal _ unmarshal_bin_i (marshal_bin_i m) = CErrUnknown.
+Proof.
+  cbv zeta. split; [|vm_compute; auto].
+  eapply hu_below; [left; reflexivity|]. apply hu_here. discriminate.
+Qed.
+
+Example ex_no_unknown : ~ has_unknown (PMsg (bs "t") [] [PMsg (bs "GET") [] []]).
+Proof. apply clean_iff. vm_compute. reflexivity. Qed.
